@@ -299,12 +299,26 @@ func runC06(c *Ctx) {
 	for o := 0; o < nOthers; o++ {
 		o := o
 		n := 1 + g.Draw(4)
+		syncs := g.Chance(3) // this task also flushes now and then, like a periodic Sync in an application
 		r.Go(fmt.Sprintf("o%d", o), func() {
 			for i := 0; i < n; i++ {
 				lg.Error(fmt.Sprintf("other-%d-%d", o, i), zap.Int("i", i))
 				zsim.Yield(zsim.KOp, nil)
+				if syncs {
+					_ = lg.Sync()
+					zsim.Yield(zsim.KOp, nil)
+				}
 			}
 		})
+	}
+	// flush ticks of the buffered sinks: one more party that syncs on its own
+	tickBudget, ticks := g.Draw(3), 0
+	if tickBudget > 0 {
+		r.AddEvent(&zsim.Event{Name: "tick", Avail: func() bool { return ticks < tickBudget && clk.TickAny(false) }, Fire: func() {
+			ticks++
+			c.Fault("tick")
+			clk.TickAny(true)
+		}})
 	}
 	c.Nontrivial = nOthers > 0
 	c.Sim()
